@@ -73,6 +73,35 @@
 //	clock as parameters of a segment (LibFunc.Input); the conditions are stated at the top of
 //	ext.go and segment.go.
 //
+//	Segments of request handlers (segstate.go, vocabulary Lib/GoSemHandler.v): state that a
+//	return inside a segment carries (Segment.State: the receiver whose fields are assigned, a
+//	parameter of an opaque type such as http.ResponseWriter), pointers that may be nil as
+//	options (Config.Nullable), calls on the receiver that the Lib table denotes (an oracle
+//	carried by the receiver's value), effectful calls whose value is a parameter of the segment
+//	(LibFunc.Oracle, also under a type assertion; the arguments, function literals included, are
+//	not translated), dropped log calls (LibFunc.Discard), err.Error(), local type declarations,
+//	segments inside function literals, the arguments of an effectful call as a segment
+//	(Segment.Args), the selectors "key#n" (n-th call), "var:name" (a declaration) and
+//	Segment.Up; the conditions are stated at the top of segstate.go.
+//
+//	EFFECTFUL functions -- sequences of operating-system / library calls with control flow in
+//	between -- have an entry point of their own, TranslateWorld (world.go, world_stmt.go,
+//	world_expr.go; table WorldConfig; vocabulary Lib/GoSemWorld.v): every library call the
+//	table marks as an effect is an uninterpreted operation on an abstract world that is passed
+//	through the translated functions (res (World * results)); several packages in one run,
+//	records generated from struct declarations, pointers to them as options, pointer
+//	receivers by state passing, embedded fields and promoted methods, error values as terms
+//	(werr), defer at the top level of a function (also of a literal that reads and assigns
+//	named results), a returned function literal as a definition of its own, function-typed
+//	parameters.  The subset and its conditions are stated at the top of world.go.
+//	Data carried through such code (world_data.go; tests world_data_test.go, internal/synthwd):
+//	library struct types with a table record (WorldConfig.Structs) and slices of structs as
+//	lists, range over such a slice as structural recursion, read-only pointer parameters,
+//	variadic library functions (string arguments as one list), append as concatenation under
+//	checked freshness conditions, *p of a package-level pointer variable of the table
+//	(WorldConfig.DerefVars), and a function literal handed to a library function translated as
+//	a definition of its own over the captured variables it assigns (WorldPkg.Lits).
+//
 // Soundness conditions of the value semantics of slices, checked per function: element
 // stores and copy only into a local made by make and used linearly; append only as
 // x = append(x, ...) on a local (or a field of a local struct made by new/zero/literal)
@@ -110,6 +139,11 @@ type LibFunc struct {
 	// parameter of the segment
 	Out   int
 	Input bool
+	// segstate.go: Discard: a call statement whose effect lies outside the denoted state (a log):
+	// pure arguments, the statement is dropped; Oracle: inside a Segment the value of the call
+	// is a parameter of the segment and its arguments are not translated
+	Discard bool
+	Oracle  bool
 }
 
 // Field maps one struct field to the Coq projection.
@@ -168,6 +202,9 @@ type Config struct {
 	// (ext.go): "importpath.Name" -> denotation.
 	Segments []Segment
 	Types    map[string]LibType
+	// Nullable: pointer types (types.TypeString) to table structs whose values may be nil: option
+	// of the struct's type (segstate.go)
+	Nullable []string
 }
 
 // Prefix asks for the translation of the pure beginning of a block of an otherwise
@@ -568,6 +605,9 @@ func (t *translator) kindOf(T types.Type) kind {
 }
 
 func (t *translator) coqType(n ast.Node, T types.Type) string {
+	if s, ok := t.coqTypeSeg(n, T); ok { // segstate.go
+		return s
+	}
 	if s, ok := t.coqTypeExt(n, T); ok { // ext.go
 		return s
 	}
@@ -624,6 +664,9 @@ func (t *translator) coqType(n ast.Node, T types.Type) string {
 }
 
 func (t *translator) zero(n ast.Node, T types.Type) string {
+	if s, ok := t.zeroSeg(T); ok { // segstate.go
+		return s
+	}
 	if s, ok := t.zeroExt(n, T); ok { // ext.go
 		return s
 	}
@@ -853,6 +896,9 @@ func (ft *funcTr) temp() string {
 }
 
 func (ft *funcTr) resultType() string {
+	if ft.segState() && ft.inLit == 0 {
+		return ft.stateResultType() // segstate.go
+	}
 	if ft.t.cfg.StatePassing && ft.inLit == 0 {
 		return ft.stateResultType() // state.go
 	}
@@ -1612,6 +1658,9 @@ func (ft *funcTr) checkAliasing() {
 		p := ft.parents[e]
 		if ft.ptrAllowed(e, p, T) {
 			return true // state.go
+		}
+		if id, isId := e.(*ast.Ident); isId && ft.segPtrUseOK(id) || ft.segPtrChainOK(e) || ft.nullableUseOK(e, T) {
+			return true // segstate.go
 		}
 		if u, isAddr := e.(*ast.UnaryExpr); isAddr && u.Op == token.AND && ft.opaqueVar(e) != nil {
 			if _, isArg := ft.up(e).(*ast.CallExpr); isArg {
